@@ -2512,6 +2512,11 @@ class StdCleanuper:
             return elem_no_squash
 
         if t_elem.is_leaf():
+            if isinstance(t_elem.value, list):
+                # sequence (ProdSequence): matched elements may contain lists and maps
+                for seq_elem in t_elem.value:
+                    if isinstance(seq_elem, TElement):
+                        self._cleanup(seq_elem)
             return elem_no_squash
 
         values = []
